@@ -25,12 +25,12 @@ type c14World struct {
 	// things / thingsExt: a parent store and an EXTENDED child store; only some things carry extended data, the
 	// others (several in a row, before, between and after them) must be skipped by the child's valid-id cursor
 	things, thingsExt *world.Store
-	rolesIdx   boltz.SetReadIndex
-	labelsIdx  boltz.SetReadIndex
-	lh         boltz.LinkCollection
-	rh         boltz.RefCountedLinkCollection
-	dir        string
-	db         *boltz.DbImpl
+	rolesIdx          boltz.SetReadIndex
+	labelsIdx         boltz.SetReadIndex
+	lh                boltz.LinkCollection
+	rh                boltz.RefCountedLinkCollection
+	dir               string
+	db                *boltz.DbImpl
 }
 
 func newC14World() *c14World {
